@@ -268,6 +268,7 @@ FRAG_OPS = [
     "user { ...Aaa }", "user { bestFriend { ...UA } friends { ...UB } }", "user { id ...UA name }", "nodes { ...NA ... on User { ...UA } }",
     "me { ...ZU ...UA }", "thing { ... on User { ...UE } }", "user { ...UA @include(if: true) }", "user { ...AF }", "me { ...AG }", "users { ...AF ...AG }",
     "node { id ... on Bot { model } ...UE }", "nodesOpt { ... on Dog { barks } ...UB }", "thing { ... on Bot { model } ...UC }", "named { ... on Bot { model } ...UE ...MA }",
+    "user { ... on Node { ...NA } }", "me { name ... on Named { ...MA } ... on User { ...ZU } }", "node { ... on Node { ...NA } ... on User { ...UB } }",
 ]
 
 
